@@ -137,6 +137,8 @@ func main() {
 		}
 	case "config":
 		total += genConfig(out, rng, cnt(300, 5000))
+	case "debug":
+		total += genDebug(out, rng, cnt(1500, 40000))
 	default:
 		if !runAsmDomain(domain, out, rng, thorough, *nflag, *replay) {
 			fmt.Fprintf(os.Stderr, "unknown domain %q\n", domain)
